@@ -177,6 +177,10 @@ class CSSRuleRules(CSSRule):
         cssRules.extend = self.insertRule
         cssRules.__delitem__ = self.deleteRule
 
+        for rule in getattr(self, '_cssRules', ()):
+            # rules of a replaced list are not contained anymore
+            rule._parentRule = None
+
         for rule in cssRules:
             rule._parentRule = self
             rule._parentStyleSheet = None
